@@ -26,7 +26,7 @@ func TestRegressFirstPacketTimestampZero(t *testing.T) {
 	if !kit.Eventually(kit.DefaultDeadline, func() bool { return sink.Len() >= 1 }) {
 		t.Fatal("no sender report")
 	}
-	sr := sink.Calls()[0].Pkts[0].(*rtcp.SenderReport) //nolint:forcetypeassert
+	sr := sink.Calls()[0].Pkts[0].(*rtcp.SenderReport)   //nolint:forcetypeassert
 	if d := int32(sr.RTPTime - 90000); d > 1 || d < -1 { //nolint:gosec
 		kit.WriteReplay("TestRegressFirstPacketTimestampZero", []byte(`{"first_packet_ts":0,"rate":90000,"report_after_s":1}`))
 		t.Fatalf("first packet with timestamp 0, report 1 s later at 90 kHz: RTP time %d, want 90000", sr.RTPTime)
